@@ -96,7 +96,7 @@ P("C01", module="AJ.Props.C01All", extra=[("AJ.Props.C01", ["C01"]), ("AJ.Props.
   level_note="Lean kernel; the limits are part of the grammar because a repeated key hides the value it overwrites (kernel-checked counterexample to the naive statement); "
   "floating-point accuracy is C12's concern; 'destination entirely replaced' is checked by the correspondence (prefilled documents)",
   suites=lambda tier: [S.JsonValidSuite(cfg=DEF), S.JsonValidSuite(cfg=CFG_ALL, n=1500 if tier == "quick" else 100000), S.ReuseSuite(cfg=DEF, n=80 if tier == "quick" else 4000),
-                       S.JsonDocSuite(cfg=DEF, n=800 if tier == "quick" else 60000)],
+                       S.JsonDocSuite(cfg=DEF, n=800 if tier == "quick" else 60000), S.JsonDocSuite(cfg=G["len1"], n=300 if tier == "quick" else 30000)],
   partial=[])
 
 P("C02", module="AJ.Props.C02All", extra=[("AJ.Props.C02", ["C02"]), ("AJ.Props.C02Parse", ["C02"])],
@@ -284,7 +284,7 @@ P("C05", module="AJ.Props.C05All", extra=[("AJ.Props.C05", ["C05"]), ("AJ.Props.
   "documents keep their own allocator in the fault histories (no copy-assignment/swap)",
   suites=lambda tier: [S.FaultSuite(cfg=G["default"]), S.FaultSuite(cfg=G["tiny1"], nh=120 if tier == "quick" else 3000), S.FaultSuite(cfg=G["tiny2"], nh=80 if tier == "quick" else 3000),
                        S.DeserFaultSuite(cfg=G["default"]), S.DeserFaultSuite(cfg=G["tiny2"], n=300 if tier == "quick" else 20000),
-                       S.JsonDocSuite(cfg=DEF, n=1500 if tier == "quick" else 150000), S.MpDocSuite(cfg=DEF, n=1500 if tier == "quick" else 150000), S.DeserShareSuite(cfg=G["tiny2"])] +
+                       S.JsonDocSuite(cfg=DEF, n=1500 if tier == "quick" else 150000), S.MpDocSuite(cfg=DEF, n=1500 if tier == "quick" else 150000), S.DeserShareSuite(cfg=G["tiny2"]), S.FlagTravelSuite(cfg=G["tiny2"]), S.FlagTravelSuite(cfg=DEF)] +
   ([S.FaultSuite(cfg=G[g], nh=2000) for g in ("id1", "tiny2", "id1c10")] if tier == "thorough" else []),
   partial=["filtered deserialization at slot level (the filtered runs are related to the unfiltered one at value level, C11)"])
 
@@ -316,7 +316,8 @@ P("C19", module="AJ.Props.C19All", extra=[("AJ.Props.C19", ["C19"]), ("AJ.Props.
   "on the implementation: strings, raw values and keys of exactly the longest storable length and one byte more (1-byte and 2-byte lengths) must succeed / fail cleanly (false, overflowed, "
   "nothing stored, usable again after clear)",
   suites=lambda tier: [S.HistSuite(cfg=G["id1c10"], nh=30 if tier == "quick" else 1500), S.HistSuite(cfg=G["id1i3"], nh=30 if tier == "quick" else 1500), S.HistSuite(cfg=G["len1"], nh=25 if tier == "quick" else 1500),
-                       S.LimitSuite(cfg=G["id1c10"]), S.LimitSuite(cfg=G["tiny1"]), S.LimitSuite(cfg=G["id1i3"]), S.LimitSuite(cfg=G["len1"]), S.LimitSuite(cfg=G["id1c128"])] +
+                       S.LimitSuite(cfg=G["id1c10"]), S.LimitSuite(cfg=G["tiny1"]), S.LimitSuite(cfg=G["id1i3"]), S.LimitSuite(cfg=G["len1"]), S.LimitSuite(cfg=G["id1c128"]),
+                       S.JsonDocSuite(cfg=G["id1c10"], n=300 if tier == "quick" else 30000), S.MpDocSuite(cfg=G["tiny2"], n=300 if tier == "quick" else 30000), S.JsonDocSuite(cfg=G["len1"], n=200 if tier == "quick" else 20000)] +
   ([S.HistSuite(cfg=G[g], nh=1500) for g in ("tiny2", "len4", "id1")] if tier == "thorough" else []))
 
 P("C20", level_text="Theorems: (1) the inventory of every object with static storage duration defined by ArduinoJson code — regenerated on every run from the object code of a "
